@@ -167,7 +167,7 @@ def _constructible(b):
     exception text goes to the evidence samples), it is not a violation of C05"""
     r = build(b)
     if r[0] == "ok":
-        return core.result([], obs="constructed", evals=1, nontrivial_count=1)
+        return core.result([], obs=("constructed", b["name"], r[1].num_filts), evals=1, nontrivial_count=1)
     return core.result([], nontrivial=False, obs="unconstructible:%s:%s" % (r[1], r[2][:80]), evals=1,
                        nontrivial_count=0, sample=dict(unconstructible=b, raised="%s: %s" % (r[1], r[2])))
 
